@@ -58,6 +58,9 @@ def templates(rng):
           ("column_stack-one-block", lambda m, x: m.column_stack([x]), v3),
           ("append-nothing", lambda m, x: m.append(x, []), v3),
           ("array-copy", lambda m, x: m.array(x), a2),
+          ("array-copy-then-edit", lambda m, x: (lambda c: (c.__setitem__((0, 0), 7.5), c * 1.0)[1])(m.array(a2)) + 0.0 * x, a2),
+          ("asarray-is-no-copy", lambda m, x: m.asarray(x) * 1.0, a2, True),
+          ("array-copy-kw", lambda m, x: m.array(x, copy=True), a2, True),
           ("copy", lambda m, x: m.copy(x), a2, True),
           ("append", lambda m, x: m.append(x, b2), a2),
           ("append-axis0", lambda m, x: m.append(x, b2, axis=0), a2),
@@ -337,6 +340,15 @@ def main():
                     probs.append("gradient is a tracer object")
                 if not onp.array_equal(x0, x_before):
                     probs.append("input modified")
+                # where NumPy hands back fresh memory, so does the wrapper called on plain arrays: otherwise the caller's
+                # next in-place edit of the "copy" modifies the user-supplied input (for traced calls only reported, see
+                # DESIGN 6: x.flatten() on a traced array is a view at the pinned tree)
+                if isinstance(expected, onp.ndarray) and expected.size and not onp.shares_memory(expected, x0):
+                    if isinstance(plain, onp.ndarray) and onp.shares_memory(plain, x0):
+                        probs.append("plain call: the result shares memory with the input where NumPy returns a copy")
+                    for r_ in (under_rev, under_fwd):
+                        if isinstance(r_, onp.ndarray) and r_ is not expected and onp.shares_memory(r_, x0):
+                            out["dist"]["traced-primal-is-a-view-of-the-input:" + name] = 1
             except Exception as ex:
                 probs = ["raised: %r" % (ex,)]
             if len(out["samples"]) < 2:
